@@ -439,8 +439,13 @@ pub fn defs() -> Vec<PropertyDef> {
                 weight: 4,
                 fault_free: false,
             },
+            Family {
+                scenario: Box::new(crate::props::c03::C04ForgedScenario),
+                weight: 3,
+                fault_free: false,
+            },
         ],
-        rule: "component families: one run = one sender history (start value around 0 / 2^28 / 2^31 / 2^32-1 or random, jumps 1..2^28) pushed through a simulated network (drop, duplicate, reorder within / beyond the 16-entry window) into the real RxCtrState / GroupCtrStore (up to 20 senders, LRU eviction) and a reference model; system family: two real stacks under the datagram adversary with the receive-window verdict of every datagram (guarded event hook) checked against the model; system-raw-peer-counters: the same two stacks plus a raw peer (harness-made, authentic under the keys of 1-2 extra sessions, standing for a conforming implementation other than rs-matter) whose counters start anywhere, jump by up to 2^31 and arrive dropped, duplicated and reordered; distinct = distinct trace hash (system) or distinct arrival history (component); non-trivial = >= 2 arrivals and at least one network fault or jump fired",
+        rule: "component families: one run = one sender history (start value around 0 / 2^28 / 2^31 / 2^32-1 or random, jumps 1..2^28) pushed through a simulated network (drop, duplicate, reorder within / beyond the 16-entry window) into the real RxCtrState / GroupCtrStore (up to 20 senders, LRU eviction) and a reference model; system family: two real stacks under the datagram adversary with the receive-window verdict of every datagram (guarded event hook) checked against the model; system-raw-peer-counters: the same two stacks plus a raw peer (harness-made, authentic under the keys of 1-2 extra sessions, standing for a conforming implementation other than rs-matter) whose counters start anywhere, jump by up to 2^31 and arrive dropped, duplicated and reordered; system-group-senders-and-forgeries: 2-3 real stacks of one fabric with group keys exchanging 3-8 group data messages and unicast traffic while forged variants of the datagrams (altered counter, source, group id, body, tag; replays, misrouted copies) arrive before or after the authentic ones - per (receiver, group sender) an authentic message with a counter above everything accepted so far is accepted, none twice; distinct = distinct trace hash (system) or distinct arrival history (component); non-trivial = >= 2 arrivals and at least one network fault or jump fired",
         assumptions: vec![
             "component families are model-based tests of a pure state machine driven by simulated network histories; the system family is the part only a simulator reaches",
             "reference model written from the property statement (set of accepted counters + maximum + 16-entry window), not from the code",
